@@ -58,6 +58,7 @@ class Run:
         self.notes = []
         self.findings = [f for f in load_known_findings() if f.get("property") == pid and f.get("status") == "open"]
         self.outdir = os.path.join(VERIF, "out", pid)
+        shutil.rmtree(self.outdir, ignore_errors=True)
 
     # ----- coverage helpers
     def add(self, key, n=1):
@@ -156,6 +157,8 @@ def main_wrapper(pid, fn):
     ap.add_argument("--replay", default=None)
     args = ap.parse_args(sys.argv[2:])
     run = Run(pid, args.tier, args.seed)
+    # the library prints diagnostics to stderr; keep the check's output clean
+    sys.stderr = open(os.devnull, "w")
     run.replay_path = args.replay
     try:
         fn(run)
@@ -164,7 +167,7 @@ def main_wrapper(pid, fn):
         print("MACHINERY-FAILURE %s: %s" % (pid, e))
         rc = 2
     except Exception:
-        traceback.print_exc()
+        traceback.print_exc(file=sys.stdout)
         print("MACHINERY-FAILURE %s: harness exception" % pid)
         rc = 2
     sys.stdout.flush()
